@@ -151,7 +151,7 @@ PROPS = {
             "technique": "Lean 4 proof (rollback theorem, partial + counterexample) + before/after snapshot differential on the real code",
             "design_ref": "DESIGN.md §5 C07",
         },
-        "lean_props": ["C07", "C08", "EngineThms", "LinksThms", "C01M"],
+        "lean_props": ["C07", "C08", "EngineThms", "LinksThms", "C01M", "C07G"],
         "streams": [HIST, HISTUC],
     },
     "C08": {
